@@ -127,7 +127,7 @@ class Lit:
     PURE = {'range': range, 'len': len, 'tuple': tuple, 'list': list, 'dict': dict, 'set': set, 'frozenset': frozenset,
             'min': min, 'max': max, 'sum': sum, 'abs': abs, 'int': int, 'str': str, 'bool': bool, 'chr': chr, 'ord': ord,
             'bytes': bytes, 'bytearray': bytearray, 'sorted': sorted, 'enumerate': enumerate, 'zip': zip, 'any': any, 'all': all,
-            'reversed': reversed, 'divmod': divmod, 'round': round}
+            'reversed': reversed, 'divmod': divmod, 'round': round, 'next': next, 'iter': iter, 'repr': repr, 'hex': hex}
 
     def __init__(self, repo, modname, env=None, opaque=None):
         self.repo = repo
@@ -374,6 +374,7 @@ class ModuleFold:
             v = _BIN[type(st.op)](cur, self.lit().ev(st.value))
             self.store(st.target, v)
         elif isinstance(st, ast.For):
+            broke = False
             for item in self.lit().ev(st.iter):
                 _bind(st.target, item, self.env)
                 try:
@@ -382,7 +383,11 @@ class ModuleFold:
                 except _Continue:
                     continue
                 except _Break:
+                    broke = True
                     break
+            if not broke:
+                for s in st.orelse:
+                    self.stmt(s)
         elif isinstance(st, ast.If):
             for s in (st.body if self.lit().ev(st.test) else st.orelse):
                 self.stmt(s)
@@ -401,6 +406,20 @@ class ModuleFold:
                     self.store(item.optional_vars, v)
             for s in st.body:
                 self.stmt(s)
+        elif isinstance(st, ast.Delete):
+            for tg in st.targets:
+                if isinstance(tg, ast.Subscript):
+                    base = self.lit().ev(tg.value)
+                    if isinstance(tg.slice, ast.Slice):
+                        lo = self.lit().ev(tg.slice.lower) if tg.slice.lower else None
+                        hi = self.lit().ev(tg.slice.upper) if tg.slice.upper else None
+                        del base[lo:hi]
+                    else:
+                        del base[self.lit().ev(tg.slice)]
+                elif isinstance(tg, ast.Name):
+                    self.env.pop(tg.id, None)
+                else:
+                    raise NotLiteral('del target')
         elif isinstance(st, ast.Break):
             raise _Break()
         elif isinstance(st, ast.Continue):
@@ -459,21 +478,44 @@ class _Return(Exception):
         self.value = value
 
 class FuncFold(ModuleFold):
-    """Fold a small pure function (Assign / AugAssign / If / Return) on concrete arguments."""
+    """Fold a small pure function (Assign / AugAssign / If / Return) on concrete arguments.  A generator function is folded eagerly:
+    its yielded values are collected and handed back as an iterator (its consumers here are finite loops, list() and next())."""
+    yields = None
     def stmt(self, st):
         if isinstance(st, ast.Return):
             raise _Return(self.lit().ev(st.value) if st.value is not None else None)
+        if isinstance(st, ast.Expr) and isinstance(st.value, ast.Yield) and self.yields is not None:
+            self.yields.append(self.lit().ev(st.value.value) if st.value.value is not None else None)
+            if len(self.yields) > 200000:
+                raise NotLiteral('generator bound')
+            return
         return super().stmt(st)
 
     def call(self, fn, env):
         self.env = dict(env)
+        own = []
+        def collect(n):
+            for c in ast.iter_child_nodes(n):
+                if isinstance(c, (ast.FunctionDef, ast.Lambda, ast.ClassDef)):
+                    continue
+                own.append(c)
+                collect(c)
+        if getattr(fn, '_sa_is_gen', None) is None:
+            collect(fn)
+            fn._sa_is_gen = any(isinstance(x, (ast.Yield, ast.YieldFrom)) for x in own)
+        if fn._sa_is_gen:
+            self.yields = []
         try:
             for st in fn.body:
                 if isinstance(st, ast.Expr) and isinstance(st.value, ast.Constant):
                     continue
                 self.stmt(st)
         except _Return as r:
+            if self.yields is not None:
+                return iter(self.yields)
             return r.value
+        if self.yields is not None:
+            return iter(self.yields)
         return None
 
 
